@@ -38,6 +38,10 @@ type Scn struct {
 	Client  string `json:"client"` // socket address of the client "ip:port"
 	Payload int    `json:"payload"`
 	Peers   int    `json:"peers"`
+	// Other: another proxy handler (another route / server, or the previous configuration
+	// before a reload) was provisioned first for the SAME upstream addresses with this
+	// proxy_protocol setting ("none" = without one); "" = no other handler
+	Other string `json:"other,omitempty"`
 }
 
 var v2sig = []byte{0x0D, 0x0A, 0x0D, 0x0A, 0x00, 0x0D, 0x0A, 0x51, 0x55, 0x49, 0x54, 0x0A}
@@ -188,7 +192,24 @@ func execute(x *explore.Exec, sc *Scn) *result {
 		if sc.Recv != "none" {
 			handlers = append(handlers, map[string]any{"handler": "proxy_protocol"})
 		}
-		handlers = append(handlers, map[string]any{"handler": "proxy", "proxy_protocol": sc.Send, "upstreams": []map[string]any{{"dial": dial}}})
+		if sc.Other != "" {
+			oh := map[string]any{"handler": "proxy", "upstreams": []map[string]any{{"dial": dial}}}
+			if sc.Other != "none" {
+				oh["proxy_protocol"] = sc.Other
+			}
+			other := &layer4.Server{}
+			if err := json.Unmarshal(hm.J([]map[string]any{{"handle": []map[string]any{oh}}}), &other.Routes); err != nil {
+				panic(err)
+			}
+			if err := other.Provision(ctx, zap.NewNop()); err != nil {
+				panic(err)
+			}
+		}
+		ph := map[string]any{"handler": "proxy", "upstreams": []map[string]any{{"dial": dial}}}
+		if sc.Send != "none" {
+			ph["proxy_protocol"] = sc.Send
+		}
+		handlers = append(handlers, ph)
 		srv := &layer4.Server{}
 		if err := json.Unmarshal(hm.J([]map[string]any{{"handle": handlers}}), &srv.Routes); err != nil {
 			panic(err)
@@ -255,6 +276,13 @@ func check(x *explore.Exec, sc *Scn, r *result) {
 	}
 	P := payload(sc.Payload)
 	for i, u := range r.ups {
+		if sc.Send == "none" {
+			// no proxy_protocol configured on this handler: the upstream gets the stream as it is
+			if string(u) != string(P) {
+				x.Fail("header-sent-although-not-configured", "upstream %d received %d bytes starting %q, the client's stream has %d bytes and this handler has no proxy_protocol option; %s", i, len(u), u[:min(len(u), 20)], len(P), desc())
+			}
+			continue
+		}
 		d, err := decode(u)
 		if err != nil {
 			x.Fail("sent-header-malformed:"+sc.Send, "upstream %d: %v; %s", i, err, desc())
@@ -279,6 +307,19 @@ func check(x *explore.Exec, sc *Scn, r *result) {
 }
 
 func scenarios(tier string, yield func(any) bool) {
+	// another handler was provisioned first for the same upstream addresses
+	for _, send := range []string{"v1", "v2", "none"} {
+		for _, other := range []string{"v1", "v2", "none"} {
+			if send == other {
+				continue
+			}
+			for _, peers := range []int{1, 2} {
+				if !yield(&Scn{Send: send, Recv: "none", Client: "192.0.2.7:50000", Payload: 5, Peers: peers, Other: other}) {
+					return
+				}
+			}
+		}
+	}
 	for _, send := range []string{"v1", "v2"} {
 		for _, recv := range []string{"none", "v1-tcp4", "v1-tcp6", "v2-tcp4", "v2-tcp6", "v2-udp4", "v1-unknown", "v2-local"} {
 			for _, client := range []string{"192.0.2.7:50000", "[2001:db8::99]:50001"} {
@@ -296,6 +337,8 @@ func scenarios(tier string, yield func(any) bool) {
 		}
 	}
 }
+
+
 
 func bounds(tier string) (explore.Bounds, int) {
 	b := explore.DefaultBounds(1)
